@@ -51,6 +51,12 @@ CATALOGUE = {
     # step returning Kill
     'selfkill': {'steps': [S([['yield']], ['kill', 'own'], True)]},
 }
+# declares a required output that is never emitted: a normal return ends FINISHED but unsuccessful
+MISSING_OUT = {
+    'steps': [S([['yield'], ['status', 'm1'], ['yield']], ['wait', 1, None, None], True), S([['yield']], ['value', 4], True)],
+    'spec': {'outputs': {'kind': 'ns', 'required': True, 'dynamic': True, 'valid_type': None, 'validator': None, 'populate_defaults': True, 'ports': {'need': {'kind': 'port', 'required': True, 'valid_type': 'int', 'validator': None, 'default': None}}}},
+}
+CATALOGUE['missing_out'] = MISSING_OUT
 
 
 def schedules(alphabet, k, max_gap):
@@ -147,6 +153,8 @@ def control_schedules(draw, alphabet, max_events=4, max_gap=4, post=False):
             sched.append(['fail', draw(st.sampled_from(['f1', 'f2']))])
         elif what == 'open':
             sched.append(['open', draw(st.sampled_from(GATES))])
+        elif what in ('cancel_task', 'restep', 'reload'):
+            sched.append([what])
         else:
             sched.append([what])
     return sched
